@@ -1084,12 +1084,12 @@ func emitReturnStmt(cb *CodeBuilder, pos token.Pos, rets ...ast.Expr) {
 }
 
 func emitIfStmt(cb *CodeBuilder, p *ifStmt, el ast.Stmt) {
-	cb.emitStmt(&ast.IfStmt{Init: p.init, Cond: p.cond, Body: p.body, Else: el})
+	cb.emitStmt(&ast.IfStmt{Init: checkHeaderStmt(p.init), Cond: checkHeaderExpr(p.cond), Body: p.body, Else: el})
 }
 
 func emitSWitchStmt(cb *CodeBuilder, p *switchStmt, stmts []ast.Stmt) {
 	body := &ast.BlockStmt{List: stmts}
-	cb.emitStmt(&ast.SwitchStmt{Init: p.init, Tag: checkParenExpr(p.tag.Val), Body: body})
+	cb.emitStmt(&ast.SwitchStmt{Init: checkHeaderStmt(p.init), Tag: checkHeaderExpr(checkParenExpr(p.tag.Val)), Body: body})
 }
 
 func emitFullthrough(cb *CodeBuilder) {
@@ -1111,7 +1111,7 @@ func emitCommClause(cb *CodeBuilder, p *commCase, body []ast.Stmt) {
 func emitTypeSwitchStmt(cb *CodeBuilder, p *typeSwitchStmt, stmts []ast.Stmt) {
 	body := &ast.BlockStmt{List: stmts}
 	var assign ast.Stmt
-	x := &ast.TypeAssertExpr{X: p.x}
+	x := &ast.TypeAssertExpr{X: checkHeaderExpr(p.x)}
 	if p.name != "" {
 		assign = &ast.AssignStmt{
 			Tok: token.DEFINE,
@@ -1121,7 +1121,7 @@ func emitTypeSwitchStmt(cb *CodeBuilder, p *typeSwitchStmt, stmts []ast.Stmt) {
 	} else {
 		assign = &ast.ExprStmt{X: x}
 	}
-	cb.emitStmt(&ast.TypeSwitchStmt{Init: p.init, Assign: assign, Body: body})
+	cb.emitStmt(&ast.TypeSwitchStmt{Init: checkHeaderStmt(p.init), Assign: assign, Body: body})
 }
 
 func emitTypeCaseClause(cb *CodeBuilder, p *typeCaseStmt, body []ast.Stmt) {
@@ -1135,6 +1135,7 @@ func emitForRangeStmt(cb *CodeBuilder, p *forRangeStmt, stmts []ast.Stmt, flows 
 				Fun: &ast.SelectorExpr{X: p.stmt.X, Sel: ident(p.enumName)},
 			}
 		}
+		p.stmt.X = checkHeaderExpr(p.stmt.X)
 		p.stmt.Body = p.handleFor(&ast.BlockStmt{List: stmts}, 1)
 		cb.emitStmt(p.stmt)
 	} else {
@@ -1182,7 +1183,7 @@ func emitForRangeStmt(cb *CodeBuilder, p *forRangeStmt, stmts []ast.Stmt, flows 
 			Init: &ast.AssignStmt{
 				Lhs: []ast.Expr{identXgoIt},
 				Tok: token.DEFINE,
-				Rhs: []ast.Expr{callEnum},
+				Rhs: []ast.Expr{checkHeaderExpr(callEnum)},
 			},
 			Body: p.handleFor(&ast.BlockStmt{List: body}, 2),
 		}
